@@ -136,7 +136,10 @@ pub fn run_item(k: usize, tier: Tier, acc: &mut Acc) {
     let (n, singles) = sizes(tier)[k];
     let cfg = L2Cfg { mode: Mode::Strict, bound: Some(0), max_execs: 10, wall: Duration::from_secs(300), spurious_upto: None };
     let sc = json!({"seam": "Server", "family": "backlog", "pipelined": n, "single_request_connections": singles});
+    // about 40 scheduling decisions per queued request
+    crate::l2::STEP_CAP.store(2_000_000 + 200 * n as u64, std::sync::atomic::Ordering::Relaxed);
     explore_scenario::<BObs, _, _>(&cfg, acc, &sc, move |o| body(n, singles, o), |o, r| judge(o, r));
+    crate::l2::STEP_CAP.store(0, std::sync::atomic::Ordering::Relaxed);
     acc.nontrivial += 1;
 }
 
